@@ -116,6 +116,7 @@ def compare(impl_payload, model_payload, line=""):
         if mv == "*": continue
         if I.get(k) != mv: a.append(k)
     for k in I:
+        if k.startswith("i."): continue     # an observation of the implementation alone (compared between executions only)
         if k not in M: a.append(k)
     # ---- Tier B
     st_i, st_m = I.get("status"), M.get("status")
@@ -241,6 +242,8 @@ def compare(impl_payload, model_payload, line=""):
             dec = ["" if k == "~" else bytes.fromhex(k).decode("utf-8", "replace") for k in ks]
             if dec != sorted(set(dec)) or vs != pb:
                 b.append(("p2v", "the valuation %s does not pair the sorted inputs with the point %s" % (v, pb)))
+    if I.get("i.msg") == "panic":
+        b.append(("i.msg", "formatting the returned error value (Display) panics"))
     if I.get("pure") == "0":
         b.append(("pure", "a register no longer equals (==) the clone taken before this call, or its Debug text changed: the call altered an operand"))
     if I.get("det") == "0":
